@@ -78,6 +78,7 @@ class Session:
         self.files = files or []
         self.slots: Dict[int, str] = {}
         self.tool_loads = 0
+        self.tool_merges = 0
 
     def apply(self, op) -> Any:
         k = self.k
@@ -121,6 +122,8 @@ class Session:
         if kind == "load_slot":
             if op[1] in self.slots:
                 self.tool_loads += 1
+                if not op[2]:
+                    self.tool_merges += 1
                 k.load_config(self.slots[op[1]], replace=op[2])
             return None
         raise ValueError(op)
